@@ -710,8 +710,17 @@ class _ParseFunction(_nt('_ParseFunction', 'func, args, kwargs')):
         return self.func(${ctx}_text, _pos, *self.args, **dict(self.kwargs))
 
     def __hash__(self):
+        # An argument may be another _ParseFunction, nested as deep as the
+        # input, so work out the hash of each one only once.
+        try:
+            return self._hash_value
+        except AttributeError:
+            pass
+
         # The arguments may be unhashable values, like lists or dicts.
-        return hash(self.func) ^ _hash(self.args) ^ _hash(self.kwargs)
+        result = hash(self.func) ^ _hash(self.args) ^ _hash(self.kwargs)
+        self._hash_value = result
+        return result
 
 
 class _StringLiteral(str):
